@@ -34,6 +34,7 @@ type Result struct {
 	Violations []world.Violation `json:"violations,omitempty"`
 	Sample     string            `json:"sample,omitempty"`
 	Shape      string            `json:"shape,omitempty"` // what made this run distinct/non-trivial
+	Nontrivial bool              `json:"nontrivial"`
 	Infra      string            `json:"infra,omitempty"` // harness trouble (never a verdict)
 	Log        []string          `json:"-"`
 	ChoiceVals []int             `json:"-"`
@@ -112,6 +113,12 @@ func RunOne(t *testing.T, prop string, seed uint64, replay []int, tier string, k
 					res.Stats["net.fragments"] += n.Stats.Fragments
 					res.Stats["net.deliveries"] += n.Stats.Deliveries
 					res.Log = w.Log
+					for k, v := range res.Stats {
+						if v > 0 && (strings.HasPrefix(k, "fault.") || strings.HasPrefix(k, "backend.err.") || strings.HasPrefix(k, "probe.") ||
+							k == "backend.silent_drop" || k == "backend.drop_now" || k == "backend.unprepared") {
+							res.Nontrivial = true
+						}
+					}
 				} else {
 					s.KillAll()
 				}
